@@ -7,6 +7,7 @@ use crate::regress;
 use crate::report::{is_thorough, CaseOut, Report, Violation};
 use crate::run::{is_implicit, mname, run, Cfg, Tol, M6};
 use ivp::prelude::*;
+use std::sync::Arc;
 use serde_json::{json, Value};
 
 fn bits_eq(a: &[f64], b: &[f64]) -> bool {
@@ -14,7 +15,9 @@ fn bits_eq(a: &[f64], b: &[f64]) -> bool {
 }
 
 fn problems() -> Vec<Prob> {
-    vec![base(Base::Harmonic(1.5)), warp(&base(Base::Logistic(2.0)), Warp::Sin), base(Base::Lin3), base(Base::Spiral(0.3, 2.0)), base(Base::Rational)]
+    // the last one is stiff for the explicit methods (stability-limited steps, the stiffness test of
+    // DOPRI5/DOP853 fires): every status must mirror too
+    vec![base(Base::Harmonic(1.5)), warp(&base(Base::Logistic(2.0)), Warp::Sin), base(Base::Lin3), base(Base::Spiral(0.3, 2.0)), base(Base::Rational), base(Base::Decay(-2000.0))]
 }
 fn linear_problems() -> Vec<Prob> {
     vec![base(Base::Decay(-1.0)), base(Base::Harmonic(1.5)), base(Base::Lin3), base(Base::Spiral(0.3, 2.0))]
@@ -44,6 +47,9 @@ pub fn run_check(replay: Option<Value>) -> i32 {
         let p = &probs[idx[1]];
         if idx[4] == 1 && !is_implicit(m) {
             return None;
+        }
+        if idx[1] == 5 && m == Method::RK4 {
+            return None; // the fixed default step is unstable there: nothing to compare but overflow
         }
         let span = spans[idx[3]];
         let x0 = 0.25;
@@ -125,6 +131,9 @@ pub fn run_check(replay: Option<Value>) -> i32 {
                         out.tag("terminal-pair-mirrored");
                         // the reference semantics of the pair itself (both runs)
                         for (s, sg) in [(sa, 1.0), (sb, -1.0)] {
+                            if !matches!(s.status, Status::UserInterrupt | Status::Success) {
+                                continue; // the run gave up before it reached the roots (mirrored status is judged above)
+                            }
                             let want0 = idx[5] == 2; // the non-terminal root comes first in integration order
                             let got0 = s.t_events[0].len() == 1 && (sg * s.t_events[0][0] - if idx[5] == 2 { c1 } else { c2 }).abs() <= 4e-11 * (1.0 + c1.abs());
                             if s.status != Status::UserInterrupt || s.t_events[1].len() != 1 || (want0 != got0) || (!want0 && !s.t_events[0].is_empty()) {
@@ -224,7 +233,19 @@ pub fn run_check(replay: Option<Value>) -> i32 {
     });
 
     // (d) m independent identical copies
-    let cprobs = vec![base(Base::Harmonic(1.5)), warp(&base(Base::Logistic(2.0)), Warp::Sin), base(Base::Spiral(0.3, 2.0)), base(Base::Riccati)];
+    // the last entry is a placeholder: a relaxation started so close to its equilibrium that the scaled
+    // initial derivative is 5e-6 (hinit's "nearly zero" guards decide the first step there); its initial
+    // state depends on the tolerance and is built per lattice point
+    let near_equilibrium = |tol: f64| Prob {
+        name: "relaxation started at 1 + 5e-6 tolerance units".into(),
+        n: 1,
+        f: Arc::new(|_t, y, d| d[0] = -(y[0] - 1.0)),
+        jac: Some(Arc::new(|_t, _y| vec![-1.0])),
+        flow: Some(Arc::new(|s0, y0, s1| vec![1.0 + (y0[0] - 1.0) * (-(s1 - s0)).exp()])),
+        y0: vec![1.0 + 5e-6 * tol * 1.01],
+        linear_homogeneous: false,
+    };
+    let cprobs = vec![base(Base::Harmonic(1.5)), warp(&base(Base::Logistic(2.0)), Warp::Sin), base(Base::Spiral(0.3, 2.0)), base(Base::Riccati), near_equilibrium(1e-6)];
     let ms = [2usize, 3, 4, 8, 16];
     let dims_d = vec![
         dim("method", &M6.iter().map(|m| mname(*m)).collect::<Vec<_>>()),
@@ -236,11 +257,17 @@ pub fn run_check(replay: Option<Value>) -> i32 {
     ];
     lattice(&mut rep, "copies", &dims_d, only.as_deref(), |key, idx| {
         let m = M6[idx[0]];
-        let p = &cprobs[idx[1]];
         if idx[5] == 1 && !is_implicit(m) {
             return None;
         }
         let tol = tols[idx[2]];
+        let pn;
+        let p = if idx[1] == cprobs.len() - 1 {
+            pn = near_equilibrium(tol);
+            &pn
+        } else {
+            &cprobs[idx[1]]
+        };
         let mc = ms[idx[3]];
         let mut c = Cfg::new(m, 0.0, 3.0, &p.y0).tol(tol, tol * 1e-2);
         c.user_jac = idx[5] == 0;
